@@ -50,6 +50,8 @@ def falsify(ctx, case: Dict) -> bool:
                             d["fullname_override"] = s["fullname"]
                         if tf:
                             d["timeframe"] = tf
+                        if tf and s.get("own_ha"):
+                            d["candlestick_type"] = "HA"
                         if s["kind"] == "AMORPH":
                             a = s["analysis"]
                             # arguments of the analysis function go under "args" (a top-level "indicator"
@@ -177,6 +179,11 @@ def gen_case(rng, ctx) -> Dict:
         if mixed:
             # any mix: member timeframes need not divide one another (multiples of the base timeframe only)
             tf = rng.choice([None] + (TF_MIX if hcfg.get("tf") != "T5" else [t for t in TF_MIX if t in TF_MIX5]))
+        if tf and rng.random() < 0.3:
+            # the member carries settings of its own for its candles; inside a Hexital the Hexital's
+            # settings are the ones that count (as for timeframe_fill)
+            s["own_ha"] = rng.random() < 0.7
+            s["own_fill"] = rng.random() < 0.5
         specs.append(s)
         tfs.append(tf)
     init_n = rng.choice([0, 1, n, rng.randint(0, n)])
